@@ -95,7 +95,7 @@ pub fn guarded<R>(f: impl FnOnce() -> R) -> Result<R, (String, String)> {
 /// strip line numbers' volatility a little: keep file and line (signature of a
 /// panic site); paths under /repo are made relative.
 pub fn norm_loc(loc: &str) -> String {
-    // path dependencies are reached through the symlink starsim/repo -> /repo (or a snapshot)
+    // path dependencies are reached through starsim/repo, the staged copy of /repo (or of a snapshot)
     match loc.find("repo/") {
         Some(i) if loc[..i].chars().all(|c| c == '/' || c == '.' ) || loc[..i].ends_with("starsim/") || i == 0 => loc[i + 5..].to_string(),
         _ => loc.trim_start_matches("/repo/").to_string(),
@@ -488,7 +488,7 @@ pub fn shrink(
 
 pub fn repo_head() -> String {
     std::process::Command::new("git")
-        .args(["-C", "/repo", "rev-parse", "--short", "HEAD"])
+        .args(["-C", &std::env::var("STARSIM_REPO").unwrap_or_else(|_| "/repo".to_string()), "rev-parse", "--short", "HEAD"])
         .output()
         .ok()
         .map(|o| String::from_utf8_lossy(&o.stdout).trim().to_string())
